@@ -149,6 +149,19 @@ def select__following_axis(self: XPathAxis, context: ta.ContextType = None) \
         -> Iterator[ta.ChildNodeType]:
     if context is None:
         raise self.missing_context()
+    elif isinstance(context.item, (AttributeNode, NamespaceNode)):
+        # iter_followings() yields nothing for these kinds: their following nodes are
+        # the descendants of the owner element and the owner's following nodes
+        status = context.item, context.axis
+        owner = context.item.parent
+        if owner is not None:
+            context.axis = 'following'
+            for context.item in owner.iter_descendants(with_self=False):
+                yield from cast(Iterator[ta.ChildNodeType], self[0].select(context))
+            context.item = owner
+            for _ in context.iter_followings():
+                yield from cast(Iterator[ta.ChildNodeType], self[0].select(context))
+        context.item, context.axis = status
     else:
         for _ in context.iter_followings():
             yield from cast(Iterator[ta.ChildNodeType], self[0].select(context))
